@@ -51,11 +51,19 @@ THEOREMS = [
     "PorepyVerif.C38.valueF_renderF",
     "PorepyVerif.C38.pvd_selects_latest_labels",
     "PorepyVerif.C38.pvd_index_is_latest_step",
+    "PorepyVerif.C38.toVectorFormat_ok_iff",
+    "PorepyVerif.C38.buildField_all",
+    "PorepyVerif.C38.buildField_partial",
+    "PorepyVerif.C38.counterSteps_eq",
+    "PorepyVerif.C38.monoEntries_spec",
+    "PorepyVerif.C38.wellFormedLabel_spec",
+    "PorepyVerif.C38.pvd_index_is_max_step",
+    "PorepyVerif.C38.restart_restores_latest",
 ]
 LEAN_MODULES = ["PorepyVerif.C38.Props"]
 AUDIT = "PorepyVerif/C38/Audit.lean"
 DRIVER = "PorepyVerif/C38/Driver.lean"
-N = {"quick": 22, "thorough": 450}
+N = {"quick": 16, "thorough": 400}
 RULE = ("md-grids from a recipe: hand-built 2-d strips mixing triangles, quadrilaterals, pentagons, hexagons; Cartesian and "
         "structured simplex grids in 1-3 d; 3-d prisms extruded from the strips, tensor (non-Cartesian) hexahedra; point grids; "
         "mdg_library squares/cubes with 1-3 fractures (interfaces with two sides) plus extra subdomains; 1-3 subdomains per "
@@ -65,7 +73,10 @@ RULE = ("md-grids from a recipe: hand-built 2-d strips mixing triangles, quadril
         "(labels with different digit counts and real times included), constants in the same or separate files, length scale "
         "1, 1/2, 4, 1/8. Every case is exported once and imported four ways: list of vtu files (cell and point keys), md pvd of "
         "the last step, conventional pvd, and renamed copies of the files with automatic=False and explicit dims / "
-        "are_subdomain_data (list, or one value). non-trivial = some dimension has >= 2 cell-id blocks or >= 2 entities; "
+        "are_subdomain_data (list, or one value). Entry points: tuples (grid, key, array), state keys, ([grids], key) lists, and "
+        "Exporter(grid) with (key, array). Strata reported in input_distribution: one-cell grids, duplicate grid recipes, extreme "
+        "length and value scales (2^-20 .. 2^30), last step written twice, data on some entities only / arrays of a wrong size "
+        "(ValueError expected), the DataSavingMixin call sequence over 1-11 steps with restart. non-trivial = some dimension has >= 2 cell-id blocks or >= 2 entities; "
         "distinct = distinct recipes")
 TRUSTED = [
     "modelled, not verified: meshio's vtu writer/reader (file format, base64/zlib, cell blocks; its regrouping of polyhedral cell data by ascending node count is modelled as `readBack`), numpy fancy indexing/hstack/reshape glue, the node ordering of polygons/polyhedra (connectivity)",
@@ -81,7 +92,9 @@ EXPLANATION = ("FULL for the permutation and bookkeeping logic: model = grouping
                "choice of the numerically latest label and time index from the file suffix; time-information files. Theorems: "
                "groups_partition_cells, import_export_id (scalar, vector), chop_concat_id, roundtrip_dim, point_data_roundtrip(_dim,_vector), "
                "length_scale_*, parse_makeName, suffix_index, manual_resolution, valueF_renderF, pvd_selects_latest_labels, "
-               "pvd_index_is_latest_step, time_info_roundtrip. Correspondence compares cell_ids, points, the blocks and point values read "
+               "pvd_index_is_latest_step / pvd_index_is_max_step (monotonicity and label well-formedness are decidable input conditions the "
+               "driver evaluates on every real pvd file), restart_restores_latest (selection composed with the round trip), buildField_all / "
+               "buildField_partial and toVectorFormat_ok_iff (error branches), counterSteps_eq, time_info_roundtrip. Correspondence compares cell_ids, points, the blocks and point values read "
                "back from the files with meshio, file names, pvd selection and all imported values, exactly. The file format itself is "
                "outside (partial in that sense).")
 ASSUMPTIONS = ["cell and point values are dyadic rationals (binary64 exact) so that the ascii writer and the rational model agree exactly",
@@ -93,7 +106,6 @@ ROUTES = ("vtu", "mdg_pvd", "pvd", "manual")
 CELL_FIELDS = ("s", "v")
 POINT_FIELDS = ("ps", "pv")
 FIELDS = CELL_FIELDS + POINT_FIELDS
-KEY_MANUAL = "import-automatic-false-later-files-resolved-by-name"
 
 
 # ----------------------------------------------------------------------------- grids from recipes
@@ -238,22 +250,27 @@ def _base_data(case, ents):
 def _arrays(case, part_s, part_v, j, flat_vec):
     """numpy arrays handed to the exporter for one entity at the j-th exported step"""
     off = SHIFT * j
-    s = np.array([float(x) + off for x in part_s])
+    vs = float(_vs(case))  # power of two: exact
+    s = np.array([(float(x) + off) * vs for x in part_s])
     n, nd = len(part_v), case["nd"]
-    A = np.array([[float(col[i]) + off for col in part_v] for i in range(nd)]).reshape(nd, n)
+    A = np.array([[(float(col[i]) + off) * vs for col in part_v] for i in range(nd)]).reshape(nd, n)
     if flat_vec:
         return s, A.ravel("F")  # cell-major flat array, as the models store vector variables
     return s, A
 
 
-def _expected(base_kd, j):
+def _vs(case):
+    return Fraction(case.get("vscale", "1"))
+
+
+def _expected(case, base_kd, j):
     """what the importer must deliver for step j: scalars as they are, vectors flat (entity-major)"""
-    out = {}
+    out, vs = {}, _vs(case)
     for f in FIELDS:
         if f in ("s", "ps"):
-            out[f] = [[frac(x + SHIFT * j) for x in p] for p in base_kd[f]]
+            out[f] = [[frac((x + SHIFT * j) * vs) for x in p] for p in base_kd[f]]
         else:
-            out[f] = [[frac(x + SHIFT * j) for col in p for x in col] for p in base_kd[f]]
+            out[f] = [[frac((x + SHIFT * j) * vs) for col in p for x in col] for p in base_kd[f]]
     return out
 
 
@@ -306,7 +323,7 @@ def _zero(mdg, ents, case):
         for e in es:
             data = _data_dict(mdg, kind, e)
             data.pop(pp.TIME_STEP_SOLUTIONS, None)
-            if case["style"] == "state":  # keys=None on import looks the keys up in the data dictionaries
+            if case["style"] in ("state", "listkey"):  # keys=None on import looks the keys up in the data dictionaries
                 pp.set_solution_values(name="s", values=np.zeros(e.num_cells), data=data, time_step_index=0)
                 pp.set_solution_values(name="v", values=np.zeros(e.num_cells * case["nd"]), data=data, time_step_index=0)
 
@@ -333,7 +350,10 @@ def _run(case):
         with warnings.catch_warnings(), contextlib.redirect_stderr(io.StringIO()), contextlib.redirect_stdout(io.StringIO()):
             warnings.simplefilter("ignore")  # meshio's ascii warning, geometry warnings of the hand-built grids
             with _workdir() as d:
-                _CACHE[k] = _run_real(case, d)
+                try:
+                    _CACHE[k] = _run_real(case, d)
+                except Exception as e:  # the export (or grid construction) itself failed: a verdict, not a harness crash
+                    _CACHE[k] = {"fatal": _err(e)}
     return _CACHE[k]
 
 
@@ -377,28 +397,54 @@ def _run_real(case, folder):
     xkw = dict(binary=case["binary"], export_constants_separately=case["sep_const"], length_scale=L)
 
     # ---- export
-    ex = pp.Exporter(mdg, "c38", folder, **xkw)
-    for j, st in enumerate(steps):
+    style = case["style"]
+    single = style == "single"  # entry point Exporter(grid): the exporter wraps the grid in its own md-grid
+    if single and (len(ents) != 1 or len(ents[0][2]) != 1):
+        raise ValueError("style 'single' needs exactly one subdomain")
+
+    def new_exporter():
+        if single:
+            e = pp.Exporter(ents[0][2][0], "c38", folder, **xkw)
+            return e, e._mdg
+        return pp.Exporter(mdg, "c38", folder, **xkw), mdg
+
+    ex, xm = new_exporter()
+    # (step, data index): with 'repeat' the last step is written twice, first with other values (file overwritten)
+    plan = [(st, j) for j, st in enumerate(steps)]
+    if case.get("repeat", False):
+        plan = plan[:-1] + [(steps[-1], last + 5), plan[-1]]
+    for st, j in plan:
         cell_t, point_t = [], []
         for kind, d, es in ents:
             b = base[(kind, d)]
             for i, e in enumerate(es):
-                if case["style"] == "state":
-                    data = _data_dict(mdg, kind, e)
+                if style in ("state", "listkey"):
+                    data = _data_dict(xm, kind, e)
                     for fs, fv in (("s", "v"), ("ps", "pv")):
                         s, v = _arrays(case, b[fs][i], b[fv][i], j, True)
                         pp.set_solution_values(name=fs, values=s, data=data, time_step_index=0)
                         pp.set_solution_values(name=fv, values=v, data=data, time_step_index=0)
+                elif single:
+                    s, v = _arrays(case, b["s"][i], b["v"][i], j, case["flat_vec"])
+                    cell_t += [("s", s), ("v", v)]
+                    s, v = _arrays(case, b["ps"][i], b["pv"][i], j, case["flat_vec"])
+                    point_t += [("ps", s), ("pv", v)]
                 else:
                     s, v = _arrays(case, b["s"][i], b["v"][i], j, case["flat_vec"])
                     cell_t += [(e, "s", s), (e, "v", v)]
                     s, v = _arrays(case, b["ps"][i], b["pv"][i], j, case["flat_vec"])
                     point_t += [(e, "ps", s), (e, "pv", v)]
-        if case["style"] == "state":
+        if style == "state":
             ex.write_vtu(list(CELL_FIELDS), data_pt=list(POINT_FIELDS), time_step=st)
+        elif style == "listkey":  # ([grids], key) and ([mortar grids], key)
+            groups = [list(xm.subdomains())] + ([list(xm.interfaces(codim=1))] if xm.interfaces(codim=1) else [])
+            ex.write_vtu([(g, f) for g in groups for f in CELL_FIELDS], data_pt=[(g, f) for g in groups for f in POINT_FIELDS], time_step=st)
         else:
             ex.write_vtu(cell_t, data_pt=point_t, time_step=st)
-    ex.write_pvd(times=None if case["times"] is None else np.array(case["times"], dtype=float))
+    times = case["times"]
+    if times is not None and case.get("repeat", False):
+        times = times[:-1] + [times[-1], times[-1]]
+    ex.write_pvd(times=None if times is None else np.array(times, dtype=float))
     rec["files"] = sorted(p.name for p in folder.glob("*.vtu"))
 
     def fname(kind, d, st):
@@ -415,13 +461,14 @@ def _run_real(case, folder):
              "types": [c.type for c in geom.connectivity]}
         try:
             m = meshio.read(fname(kind, d, steps[last]))
-            sub = SHIFT * last
+            sub, vs = SHIFT * last, _vs(case)
+            dec = lambda x: frac(Fraction(float(x)) / vs - sub) if np.isfinite(x) else frac(x)
             r["pts"] = [[frac(x) for x in row] for row in np.asarray(m.points)]
-            r["s_blocks"] = [[frac(x - sub) for x in np.asarray(b).ravel()] for b in m.cell_data["s"]]
-            r["v_blocks"] = [[[frac(x - sub) for x in row] for row in np.asarray(b).reshape(len(b), -1)] for b in m.cell_data["v"]]
-            r["ps_file"] = [frac(x - sub) for x in np.asarray(m.point_data["ps"]).ravel()]
+            r["s_blocks"] = [[dec(x) for x in np.asarray(b).ravel()] for b in m.cell_data["s"]]
+            r["v_blocks"] = [[[dec(x) for x in row] for row in np.asarray(b).reshape(len(b), -1)] for b in m.cell_data["v"]]
+            r["ps_file"] = [dec(x) for x in np.asarray(m.point_data["ps"]).ravel()]
             pv = np.asarray(m.point_data["pv"])
-            r["pv_file"] = [[frac(x - sub) for x in row] for row in pv.reshape(len(pv), -1)]
+            r["pv_file"] = [[dec(x) for x in row] for row in pv.reshape(len(pv), -1)]
         except Exception as e:
             for f in ("pts", "s_blocks", "v_blocks", "ps_file", "pv_file"):
                 r.setdefault(f, {"err": type(e).__name__, "msg": str(e)[:200]})
@@ -447,10 +494,10 @@ def _run_real(case, folder):
                      "keys": [f"{'sd' if f else 'intf'}{d}" for d, f in truth]}
 
     # ---- import, four ways, each into the zeroed md-grid through a new Exporter (as after a restart)
-    ikeys = None if case["style"] == "state" else list(CELL_FIELDS)
+    ikeys = None if style in ("state", "listkey") else list(CELL_FIELDS)
     for route in ROUTES:
-        _zero(mdg, ents, case)
-        ex2 = pp.Exporter(mdg, "c38", folder, **xkw)
+        ex2, xm2 = new_exporter()
+        _zero(xm2, ents, case)
         info = {}
         try:
             if route == "vtu":
@@ -468,11 +515,11 @@ def _run_real(case, folder):
                 ex2.import_state_from_vtu(list(manual_files), keys=ikeys, keys_pt=list(POINT_FIELDS), **mkw)
         except Exception as e:
             rec["errors"][route] = _err(e)
-        info["imp"] = _read_imported(mdg, ents)
+        info["imp"] = _read_imported(xm2, ents)
         rec["routes"][route] = info
 
     # ---- expected values (independent of the exporter): what was handed over at each step
-    rec["expected"] = {j: {f"{kind}{d}": _expected(base[(kind, d)], j) for kind, d, es in ents} for j in range(len(steps))}
+    rec["expected"] = {j: {f"{kind}{d}": _expected(case, base[(kind, d)], j) for kind, d, es in ents} for j in range(len(steps))}
     rec["base"] = {}
     for kind, d, es in ents:
         b = base[(kind, d)]
@@ -480,8 +527,10 @@ def _run_real(case, folder):
                                       "v": [[[frac(x) for x in col] for col in p] for p in b["v"]],
                                       "pv": [[[frac(x) for x in col] for col in p] for p in b["pv"]]}
 
-    # ---- time information
+    # ---- time information, input handling, the DataSavingMixin path
     rec["time"] = _run_time(case, folder)
+    rec["input"] = _run_input(case, folder)
+    rec["mixin"] = _run_mixin(case, folder)
     return rec
 
 
@@ -507,6 +556,71 @@ def _run_time(case, folder):
         out["set"] = {"time": frac(tm2.time), "dt": frac(tm2.dt), "times": [frac(x) for x in tm2.exported_times], "dts": [frac(x) for x in tm2.exported_dt]}
     except Exception as e:
         out["set"] = {"err": type(e).__name__}
+    return out
+
+
+def _run_input(case, folder):
+    """error branches of the export: data on some entities of a dimension only; arrays of a wrong size"""
+    import meshio
+    import porepy as pp
+
+    spec = case.get("input")
+    if spec is None:
+        return None
+    sub = folder / "input"
+    gs = [_build_grid({"t": "cart", "n": [2]}) for _ in spec["present"]]
+    mdg = pp.MixedDimensionalGrid()
+    mdg.add_subdomains(gs)
+    try:
+        pp.Exporter(mdg, "q", sub).write_vtu([(g, "q", np.array([1.0, 2.0])) for g, p in zip(gs, spec["present"]) if p])
+        build = "field" if "q" in meshio.read(sub / "q_1.vtu").cell_data else "nothing"
+    except Exception as e:
+        build = {"err": type(e).__name__}
+    vec = []
+    for k, (size, ndofs) in enumerate(spec["sizes"]):
+        g = _build_grid({"t": "cart", "n": [ndofs]})
+        try:
+            pp.Exporter(g, f"w{k}", sub).write_vtu([(g, "q", np.arange(size, dtype=float))])
+            m = meshio.read(sub / f"w{k}_1.vtu")
+            vec.append("ok" if sum(np.asarray(b).size for b in m.cell_data["q"]) == size else "lost")
+        except Exception as e:
+            vec.append({"err": type(e).__name__})
+    return {"build": build, "vecfmt": vec}
+
+
+def _micro(t):
+    return int(("%f" % float(t)).replace(".", ""))
+
+
+def _run_mixin(case, folder):
+    """the calls of DataSavingMixin.write_pvd_and_vtu / load_data_from_pvd on a small grid"""
+    import porepy as pp
+
+    ws = case.get("mixin")
+    if ws is None:
+        return None
+    sub = folder / "mixin"
+    g = _build_grid({"t": "cart", "n": [2]})
+    tm = pp.TimeManager(schedule=[0.0, 1.0], dt_init=0.5, constant_dt=True)
+    ex = pp.Exporter(g, "data", sub)
+    for k, (t, dt) in enumerate(ws):
+        tm.time, tm.dt = float(t), float(dt)
+        tm.write_time_information(sub / "times.json")
+        ex.write_vtu([(g, "q", np.array([k + 0.5, -k - 0.25]))], time_dependent=True)
+        ex.write_pvd(times=np.array(tm.exported_times))
+    ex2 = pp.Exporter(g, "data", sub)
+    tm2 = pp.TimeManager(schedule=[0.0, 1.0], dt_init=0.5, constant_dt=True)
+    out = {"steps": [int(x) for x in ex._exported_timesteps]}
+    try:
+        idx = ex2.import_from_pvd(sub / "data.pvd", keys=["q"])
+        tm2.load_time_information(sub / "times.json")
+        tm2.set_time_and_dt_from_exported_steps(idx)
+        ex2._time_step_counter = idx
+        q = ex2._mdg.subdomain_data(g)[pp.TIME_STEP_SOLUTIONS]["q"][0]
+        out.update({"index": int(idx), "time": frac(tm2.time), "dt": frac(tm2.dt), "times": [frac(x) for x in tm2.exported_times],
+                    "dts": [frac(x) for x in tm2.exported_dt], "q": [frac(x) for x in q]})
+    except Exception as e:
+        out["err"] = _err(e)
     return out
 
 
@@ -537,9 +651,11 @@ def _expected_files(case, rec):
 # ----------------------------------------------------------------------------- harness interface
 def impl_run(case):
     rec = _run(case)
+    if "fatal" in rec:
+        return {"fatal": rec["fatal"]}
     last = len(case["steps"]) - 1
     dims = []
-    sub = lambda part: None if part is None else [frac(Fraction(x) - SHIFT * last) for x in part]
+    sub = lambda part: None if part is None else [frac(Fraction(x) / _vs(case) - SHIFT * last) for x in part]
     for r in rec["dims"]:
         k = f"{r['kind']}{r['dim']}"
         imp = {}
@@ -557,11 +673,15 @@ def impl_run(case):
             "pvd": {"time_index": rec["routes"]["pvd"].get("time_index"), "files": rec["routes"]["pvd"].get("restart_files")},
             "files": rec["files"],
             "parsed": [[d, a in (0, 2), st] for a, d, st in truth_names],
-            "manual": rec["manual"]["truth"], "errors": sorted(rec["errors"])}
+            "manual": rec["manual"]["truth"], "errors": sorted(rec["errors"]),
+            "pvd_conditions": [True, True], "input": rec["input"],
+            "mixin": None if rec["mixin"] is None else {k: v for k, v in rec["mixin"].items() if k != "q"}}
 
 
 def model_ops(case):
     rec = _run(case)
+    if "fatal" in rec:
+        return []
     ops = []
     for r in rec["dims"]:
         k = f"{r['kind']}{r['dim']}"
@@ -572,16 +692,23 @@ def model_ops(case):
     ents = []
     for e in rec["pvd_entries"]:
         stem = e["file"].rsplit(".", 1)[0]
-        ents.append({"label": [ord(c) for c in e["label"]], "suffix": int(stem.split("_")[-1]), "file": e["file"]})
+        ents.append({"label": [ord(c) for c in e["label"]], "suffix": int(stem.split("_")[-1]), "file": e["file"],
+                     "const": "_constant_" in e["file"]})
     ops.append({"op": "pvd_labels", "entries": ents})
     ops.append({"op": "names", "files": sorted(_expected_files(case, rec), key=lambda e: (e["app"], e["dim"], e["step"]))})
     m = rec["manual"]
     ops.append({"op": "resolve", "n": len(m["truth"]), "dims": m["dims"], "flags": m["flags"]})
+    if case.get("input") is not None:
+        ops.append({"op": "input", "present": case["input"]["present"], "sizes": case["input"]["sizes"]})
+    if case.get("mixin") is not None:
+        ops.append({"op": "mixin", "ws": [[_micro(t), frac(float(t)), frac(float(dt))] for t, dt in case["mixin"]]})
     return ops
 
 
 def model_decode(outs, case):
     rec = _run(case)
+    if "fatal" in rec:
+        return {"fatal": None}
     nd = len(rec["dims"])
     dims = []
     for r, o in zip(rec["dims"], outs):
@@ -599,9 +726,16 @@ def model_decode(outs, case):
                      "pts": o["pts"], "s_blocks": o["s_blocks"], "v_blocks": o["v_blocks"], "ps_file": o["ps_file"], "pv_file": o["pv_file"],
                      "imp": imp})
     t, p, names, res = outs[nd], outs[nd + 1], outs[nd + 2], outs[nd + 3]
+    k = nd + 4
+    inp = mix = None
+    if case.get("input") is not None:
+        inp, k = outs[k], k + 1
+    if case.get("mixin") is not None:
+        mix = outs[k]
     return {"dims": dims, "time": t, "pvd": {"time_index": p.get("index"), "files": p.get("files")},
             "files": sorted(names.get("names", [])), "parsed": names.get("parsed"),
-            "manual": res.get("resolved", res), "errors": []}
+            "manual": res.get("resolved", res), "errors": [],
+            "pvd_conditions": [p.get("wellformed"), p.get("mono")], "input": inp, "mixin": mix}
 
 
 def oracle(case):
@@ -609,6 +743,8 @@ def oracle(case):
     written at the most recent time step - through each import route; the files hold scaled points and untouched data; the
     conventional pvd yields the most recent time-step index; the time information is restored."""
     rec = _run(case)
+    if "fatal" in rec:
+        return {"what": f"exporting the case raised {rec['fatal']}", "key": "export-raises"}
     last = len(case["steps"]) - 1
     fails = []
 
@@ -622,17 +758,12 @@ def oracle(case):
         for k, msg in rec["errors"].items():
             if not (k == route or k.startswith(route + ":")):
                 continue
-            if route == "manual" and nfiles >= 2 and "vtu_file_pieces" in msg:
-                add(f"import_state_from_vtu({nfiles} renamed files, automatic=False, dims={rec['manual']['dims']}, "
-                    f"are_subdomain_data={rec['manual']['flags']}) raised {msg}: the keyword arguments are consumed by the first file", KEY_MANUAL)
-            else:
-                add(f"import ({k}) raised {msg}", f"import-raises-{route}")
+            add(f"import ({k}) raised {msg}" + (f" ({nfiles} renamed files, automatic=False, dims={rec['manual']['dims']}, "
+                f"are_subdomain_data={rec['manual']['flags']})" if route == "manual" else ""), f"import-raises-{route}")
         for k in _route_keys(rec, route):
             for name in _route_fields(route):
                 for e, (w, g) in enumerate(zip(want[k][name], info["imp"][k][name])):
                     if w != g:
-                        if route == "manual" and any(f["key"] == KEY_MANUAL for f in fails):
-                            continue  # the call was aborted
                         bad = None if g is None else [i for i, (a, b) in enumerate(zip(w, g)) if a != b][:4]
                         add(f"{route}: entity {e} of {k}, field {name}: written {w[:6]}.. imported {None if g is None else g[:6]}.. "
                             f"(first differing positions {bad}; steps {case['steps']}, labels {_labels(case)})", f"roundtrip-differs-{route}-{k}-{name}")
@@ -657,6 +788,26 @@ def oracle(case):
         if r["ps_file"] != [x for p in b["ps"] for x in p] or r["pv_file"] != [c for p in b["pv"] for c in p]:
             add(f"point values in the {k} file are not the values handed over, node by node", f"file-point-data-{k}")
 
+    # input handling: all-or-none data per dimension, array sizes
+    if rec["input"] is not None:
+        pres = case["input"]["present"]
+        want_b = "nothing" if not any(pres) else "field" if all(pres) else {"err": "ValueError"}
+        if rec["input"]["build"] != want_b:
+            add(f"write_vtu with data on entities {pres} of one dimension: {rec['input']['build']}, expected {want_b}", "input-all-or-none")
+        for (size, ndofs), got in zip(case["input"]["sizes"], rec["input"]["vecfmt"]):
+            want_v = "ok" if size % ndofs == 0 else {"err": "ValueError"}
+            if got != want_v:
+                add(f"write_vtu of an array of size {size} on a grid with {ndofs} cells: {got}, expected {want_v}", "input-array-size")
+
+    # the DataSavingMixin path: the restart continues from the last written step, time and dt
+    if rec["mixin"] is not None:
+        ws, mx = case["mixin"], rec["mixin"]
+        k = len(ws) - 1
+        exp = {"steps": list(range(len(ws))), "index": k, "time": frac(float(ws[k][0])), "dt": frac(float(ws[k][1])),
+               "times": [frac(float(t)) for t, _ in ws[:k]], "dts": [frac(float(h)) for _, h in ws[:k]], "q": [frac(k + 0.5), frac(-k - 0.25)]}
+        if mx != exp:
+            add(f"mixin path over {len(ws)} steps (times {[t for t, _ in ws]}): restart gave {mx}, expected {exp}", "mixin-restart")
+
     # time information
     t = rec["time"]
     writes = case["time"]["writes"]
@@ -672,9 +823,6 @@ def oracle(case):
     elif t["set"] != {"err": "IndexError"}:
         add(f"set_time_and_dt_from_exported_steps({idx}) on {n} entries gave {t['set']}", "time-info-restart-range")
 
-    for f in fails:  # anything else than the known finding is reported first
-        if f["key"] != KEY_MANUAL:
-            return f
     return fails[0] if fails else None
 
 
@@ -695,6 +843,8 @@ def compare(impl, model, case):
 
 def nontrivial(case):
     rec = _run(case)
+    if "fatal" in rec:
+        return False
     return any(len(r["cell_ids"]) >= 2 or len(r["sizes"]) >= 2 for r in rec["dims"])
 
 
@@ -747,6 +897,18 @@ def _rand_low(rng):
     return out
 
 
+def _ncells_spec(spec):
+    t = spec["t"]
+    if t in ("strip",):
+        return len(spec["cells"])
+    if t == "prism":
+        return len(spec["cells"]) * spec["layers"]
+    if t == "point":
+        return 1
+    n = int(np.prod(spec["n"]))
+    return n * (6 if t == "tet" else 2 if t == "tri" else 1)
+
+
 def _mixed_nonlast(case):
     """>= 2 grids of one dimension (2 or 3) and a NON-LAST one mixes cell types (by recipe)"""
     if case.get("base") is not None and not case.get("extra_first"):
@@ -764,7 +926,11 @@ def _mixed_nonlast(case):
 def gen_case(rng, tier):
     r = rng.random()
     case = {"base": None, "extra": [], "extra_first": False}
-    if r < 0.22:  # stratum: several grids of one dimension, a non-last one mixes cell types
+    tiny = [{"t": "cart", "n": [1]}, {"t": "cart", "n": [1, 1]}, {"t": "cart", "n": [1, 1, 1]}, {"t": "strip", "cells": [[1, 0]]},
+            {"t": "strip", "cells": [[2, 1]]}, {"t": "point", "x": [0, 0, 0]}, {"t": "prism", "cells": [[1, 0]], "layers": 1}]
+    if r < 0.10:  # stratum: size 1 - one-cell grids, possibly a single one (entry point Exporter(grid))
+        case["extra"] = [dict(rng.choice(tiny)) for _ in range(rng.choice([1, 1, 2, 3]))]
+    elif r < 0.32:  # stratum: several grids of one dimension, a non-last one mixes cell types
         if rng.random() < 0.65:
             case["extra"] = [{"t": "strip", "cells": _rand_strip(rng, tier, mixed=True)} for _ in range(rng.randint(1, 2))] + [_rand_2d(rng, tier)]
         else:
@@ -774,10 +940,10 @@ def gen_case(rng, tier):
                 case["extra"][0]["cells"] = [[1, 0], [1, 1]]
         if rng.random() < 0.3:
             case["extra"] += _rand_low(rng)
-    elif r < 0.42:
+    elif r < 0.47:
         case["extra"] = [_rand_2d(rng, tier) for _ in range(rng.randint(1, 3))] + _rand_low(rng)
         rng.shuffle(case["extra"])
-    elif r < 0.62:
+    elif r < 0.64:
         case["extra"] = [_rand_3d(rng, tier) for _ in range(rng.randint(1, 3))]
         if rng.random() < 0.3:
             case["extra"] += [_rand_2d(rng, tier)] + _rand_low(rng)
@@ -795,14 +961,31 @@ def gen_case(rng, tier):
             if not simplex and rng.random() < 0.5:
                 case["extra"] = [_rand_3d(rng, tier)] + ([_rand_2d(rng, tier)] if rng.random() < 0.5 else [])
         case["extra_first"] = rng.random() < 0.5
+    if case["extra"] and rng.random() < 0.12:  # stratum: duplicates - the same grid recipe twice
+        case["extra"].insert(rng.randrange(len(case["extra"]) + 1), dict(rng.choice(case["extra"])))
     case["data_seed"] = rng.randrange(10 ** 9)
     case["nd"] = rng.choice([1, 2, 2, 3, 3])
-    case["style"] = rng.choice(["tuple", "tuple", "state"])
+    case["style"] = rng.choice(["tuple", "tuple", "state", "listkey"])
+    if case["base"] is None and len(case["extra"]) == 1 and rng.random() < 0.6:
+        case["style"] = "single"
     case["flat_vec"] = rng.random() < 0.4
     case["binary"] = rng.random() < 0.7
     case["sep_const"] = rng.random() < 0.2
-    case["L"] = rng.choice(["1", "1", "1/2", "4", "1/8"])
+    case["L"] = rng.choice(["1", "1", "1/2", "4", "1/8", "1/1048576", "1048576"])  # extreme scales included
+    case["vscale"] = rng.choice(["1", "1", "1", "1/1048576", "1073741824"]) if case["binary"] else "1"
+    case["repeat"] = rng.random() < 0.2  # repeated operation: the last step is written twice
     case["manual_all"] = rng.random() < 0.5
+    case["input"] = case["mixin"] = None
+    if rng.random() < 0.5:
+        sizes = []
+        for _ in range(2):
+            nc = rng.randint(1, 4)
+            sizes.append([rng.choice([nc, 2 * nc, 3 * nc, nc + 1, 2 * nc + 1, max(1, nc - 1)]), nc])
+        case["input"] = {"present": [rng.random() < 0.6 for _ in range(rng.randint(2, 3))], "sizes": sizes}
+    if rng.random() < 0.5:
+        k = rng.choice([1, 2, 3, 3, 11])
+        t0, h = rng.choice([0.0, 0.5, 9.5, 98.0]), rng.choice([0.5, 1.0, 0.25, 2.5, 0.1])
+        case["mixin"] = [[t0 + i * h, h] for i in range(k)]
     r = rng.random()
     if r < 0.6:
         k = rng.randint(1, 3)
@@ -845,7 +1028,11 @@ def shrink_candidates(case):
         yield dict(case, steps=case["steps"][1:], times=None if case["times"] is None else case["times"][1:])
     if len(case["time"]["writes"]) > 1 or case["time"]["index"] != -1:
         yield dict(case, time={"writes": case["time"]["writes"][-1:], "index": -1})
-    for k, v in (("sep_const", False), ("binary", True), ("style", "tuple"), ("flat_vec", False), ("nd", 2), ("L", "1"), ("manual_all", False)):
+    for k in ("input", "mixin"):
+        if case.get(k) is not None:
+            yield dict(case, **{k: None})
+    for k, v in (("sep_const", False), ("binary", True), ("style", "tuple"), ("flat_vec", False), ("nd", 2), ("L", "1"), ("manual_all", False),
+                 ("vscale", "1"), ("repeat", False)):
         if case.get(k, v) != v:
             yield dict(case, **{k: v})
 
@@ -872,7 +1059,15 @@ def stats(cases, impl_outs):
             "pvd_real_times": sum(1 for c in cases if c["times"] is not None),
             "manual_route_files": {str(k): sum(1 for o in impl_outs if "manual" in o and len(o["manual"]) == k) for k in range(1, 7)},
             "length_scales": {L: sum(1 for c in cases if c.get("L", "1") == L) for L in ("1", "1/2", "4", "1/8")},
-            "styles": {s: sum(1 for c in cases if c["style"] == s) for s in ("tuple", "state")},
+            "styles": {s: sum(1 for c in cases if c["style"] == s) for s in ("tuple", "state", "listkey", "single")},
+            "stratum_single_cell_grids": sum(1 for c in cases if any(_ncells_spec(x) == 1 for x in c["extra"])),
+            "stratum_duplicate_grid_recipes": sum(1 for c in cases if len({json.dumps(x, sort_keys=True) for x in c["extra"]}) < len(c["extra"])),
+            "stratum_extreme_length_scale": sum(1 for c in cases if c.get("L", "1") in ("1/1048576", "1048576")),
+            "stratum_extreme_value_scale": sum(1 for c in cases if c.get("vscale", "1") != "1"),
+            "stratum_last_step_written_twice": sum(1 for c in cases if c.get("repeat")),
+            "input_error_cases": {"partial_data": sum(1 for c in cases if c.get("input") and any(c["input"]["present"]) and not all(c["input"]["present"])),
+                                  "wrong_array_size": sum(1 for c in cases if c.get("input") and any(a % b for a, b in c["input"]["sizes"]))},
+            "mixin_paths": {"total": sum(1 for c in cases if c.get("mixin")), "11_steps": sum(1 for c in cases if c.get("mixin") and len(c["mixin"]) == 11)},
             "ascii": sum(1 for c in cases if not c["binary"]), "separate_constants": sum(1 for c in cases if c["sep_const"]),
             "with_library_mdg": sum(1 for c in cases if c["base"] is not None),
             "export_import_cycles": len(cases), "import_calls": 4 * len(cases)}
